@@ -150,7 +150,9 @@ def diagnose(res: CheckResult, name: str, mism: List[dict], cur: Dict[str, bool]
             clause, props = "exc.dropped", {"C11"}
             vd = dict(vd, exp=["?"], act=["eot"])
         else:
-            clause, props = attribute(vd, it["prog"])
+            at = vd.get("at", 0)
+            prev = it["log"][at - 2] if isinstance(at, int) and 2 <= at <= len(it["log"]) + 1 else None
+            clause, props = attribute(vd, it["prog"], prev)
         what = "family {}: expected {} but the implementation did {} (event {} of program {}{})".format(
             name, vd.get("exp"), vd.get("act"), vd.get("at"), it["pid"],
             ", schedule " + "".join(str(e[1]) for e in it["log"]) if len(it["prog"]["drv"]) > 1 else "")
